@@ -12,8 +12,10 @@ open Verif.Py Verif.Tables
 
 /-- "a rejected request (appending to compressed data) leaves the stored records unchanged":
 appending with `gzip`, or onto a relation that is read from its compressed file, is refused, and
-nothing — neither file, hence no read — changes.  (In the model this is by construction of
-`step`; that the real code touches nothing before raising is what the correspondence run checks.) -/
+nothing — neither file, hence no read — changes.  The first conjunct (WHICH requests are refused,
+before anything is staged) is the content; the second holds by construction of the model (`step`
+keeps the state on every error) — that the real code touches nothing before raising is checked on the
+code, by the byte digest the harness takes after every rejected step. -/
 theorem write_rejected_noop (now : Nat) (r : Rel) (q : WReq)
     (ha : q.append = true) (hc : q.gzip = true ∨ r.useGz = true) :
     write now r q = .error .notImplemented ∧ step now r q = r := by
@@ -21,11 +23,6 @@ theorem write_rejected_noop (now : Nat) (r : Rel) (q : WReq)
     unfold write
     rcases hc with hc | hc <;> simp [ha, hc]
   exact ⟨h, by simp [step, h]⟩
-
-/-- any failed write (refused, or an error while staging the records) changes nothing -/
-theorem write_error_noop (now : Nat) (r : Rel) (q : WReq) (e : Err)
-    (h : write now r q = .error e) : step now r q = r := by
-  simp [step, h]
 
 /-- "exactly one of the plain and compressed files exists (compressed only if requested and
 non-empty)" — and stale data cannot resurface: from ANY start state (both forms present, any
@@ -146,6 +143,31 @@ theorem read_appends_only (now : Nat) (r : Rel) (apps : List WReq) (happ : ∀ a
         simp [hg, this]
       · simp [hg]
 
+/-- dropping the requests that fail (refused appends, requests whose records cannot be staged) does
+not change what a reader sees after a history -/
+theorem drop_failed_requests (now : Nat) (r : Rel) (qs : List WReq) :
+    abs (run now r qs) = (acceptedIn (abs r) qs).foldl absStep (abs r) := by
+  rw [abs_run, fold_absStep_accepted]
+
+/-- the closed form for ARBITRARY histories, from any start state: reading returns the records of
+the last ACCEPTED overwrite followed by those of the later ACCEPTED appends, in order (`closedForm`
+over `acceptedIn`: if no overwrite was accepted, the start content followed by the accepted appends;
+if nothing was accepted, the start content).  Failed overwrites and failed appends, wherever they
+stand, contribute nothing. -/
+theorem read_any_history (now : Nat) (r : Rel) (qs : List WReq) :
+    (run now r qs).read = closedForm r.read (acceptedIn (abs r) qs) := by
+  have h := abs_run now r qs
+  have hc : (abs (run now r qs)).content = (run now r qs).read := rfl
+  rw [← hc, h, fold_content_spec, fold_spec_closed]
+  rfl
+
+/-- the shape `read_last_overwrite` does not cover: a staging-failed overwrite AFTER the last
+accepted one (and a refused append) leave the closed form untouched. -/
+example :
+    (run 0 {} [⟨false, false, .ok [['a']]⟩, ⟨true, false, .ok [['b']]⟩, ⟨false, true, .error .tsdbError⟩,
+               ⟨true, true, .ok [['x']]⟩, ⟨true, false, .ok [['c']]⟩]).read = some [['a'], ['b'], ['c']] := by
+  decide
+
 /-- exactly one physical form after any history that starts with an accepted write, whatever
 came before and whatever follows -/
 theorem run_one_form (now : Nat) (r : Rel) (qs : List WReq) (h : OneForm r) : OneForm (run now r qs) := by
@@ -213,14 +235,17 @@ theorem remake_duplicate_last_wins :
 
 /-- "Writing a whole database to a new directory or onto itself, optionally under a different
 schema, preserves every record of every relation it writes": after a successful `write_database`
-(names without repetition), every relation `n` it was asked to write reads back as exactly the
+— out of place with any `names`, in place with `names` without repetition (an in-place call that
+names a relation twice reads, the second time, the file it has just rewritten: the model follows
+the code there, the theorem does not cover it) — every relation `n` it was asked to write reads back as exactly the
 lines staged from the records that the source relation held BEFORE the call — for an in-place
 write (`inPlace`, source = destination) too: the loop never reads a file it has already replaced —
 remade by column name if a schema was given (`sourceVals`: raw cells of a source opened with
 `autocast=False`, typed values of one opened with `autocast=True`); it exists in exactly one
 physical form, compressed iff requested and non-empty. -/
 theorem writeDb_preserves (now : Nat) (q : DbReq) (src dst d : Files)
-    (hnd : q.nameList.Nodup) (h : writeDb now q src dst = (d, none)) (n : Name) (hn : n ∈ q.nameList) :
+    (hnd : q.inPlace = false ∨ q.nameList.Nodup) (h : writeDb now q src dst = (d, none)) (n : Name)
+    (hn : n ∈ q.nameList) :
     ∃ fields vals lines, q.target.lookup n = some fields ∧
       sourceVals q fields (if q.inPlace then dst else src) n = .ok vals ∧
       stage fields vals = .ok lines ∧
@@ -247,29 +272,35 @@ theorem writeDb_preserves (now : Nat) (q : DbReq) (src dst d : Files)
         | ok dst' =>
           simp only [hw] at hloop
           obtain ⟨fields, recs, lines, r', hl, hs, hst, hwr, hset⟩ := writeOne_ok now q src dst dst' n0 hw
-          have hn0 : n0 ∉ ns := (List.nodup_cons.mp hnd).1
-          have hnd' : ns.Nodup := (List.nodup_cons.mp hnd).2
-          by_cases hEq : n = n0
-          · subst hEq
+          have hnd' : q.inPlace = false ∨ ns.Nodup := by
+            rcases hnd with h' | h'
+            · exact Or.inl h'
+            · exact Or.inr (List.nodup_cons.mp h').2
+          by_cases hmem : n ∈ ns
+          · -- a later occurrence decides; it reads the same source
+            obtain ⟨fields', recs', lines', a1, a2, a3, a4⟩ := ih (now + 1) dst' hnd' hmem hloop
+            refine ⟨fields', recs', lines', a1, ?_, a3, a4⟩
+            rw [← a2]
+            apply sourceVals_congr
+            rcases hnd with h' | h'
+            · simp [h']
+            · have hEq : n ≠ n0 := fun e => (List.nodup_cons.mp h').1 (e ▸ hmem)
+              cases q.inPlace
+              · rfl
+              · simp [hset, Files.set_other _ _ _ _ hEq]
+          · have hEq : n = n0 := by
+              rcases List.mem_cons.mp hn with h' | h'
+              · exact h'
+              · exact absurd h' hmem
+            subst hEq
             have hdn : d1 n = r' := by
-              rw [writeLoop_other q src ns (now + 1) dst' d1 hloop n hn0, hset, Files.set_same]
+              rw [writeLoop_other q src ns (now + 1) dst' d1 hloop n hmem, hset, Files.set_same]
             have h1 := write_one_form now (dst n) r' _ hwr
             have h2 := write_read now (dst n) r' _ hwr
             refine ⟨fields, recs, lines, hl, hs, hst, ?_, ?_, ?_⟩
             · rw [hdn, h2]; simp [linesOf]
             · rw [hdn]; exact h1.1
             · rw [hdn]; simpa [linesOf] using h1.2
-          · have hmem : n ∈ ns := by
-              rcases List.mem_cons.mp hn with h' | h'
-              · exact absurd h' hEq
-              · exact h'
-            obtain ⟨fields', recs', lines', a1, a2, a3, a4⟩ := ih (now + 1) dst' hnd' hmem hloop
-            refine ⟨fields', recs', lines', a1, ?_, a3, a4⟩
-            rw [← a2]
-            apply sourceVals_congr
-            cases q.inPlace
-            · rfl
-            · simp [hset, Files.set_other _ _ _ _ hEq]
 
 /-- "… and leaves no stale file for a relation of the target schema that was not written":
 neither the plain nor the compressed file of such a relation exists afterwards, whatever the
@@ -379,7 +410,7 @@ open Verif.C08 (normEmpty) in
 source records (remade by name if a schema was given), cell by cell, an empty cell replaced by the
 column default. -/
 theorem writeDb_readRaw (now : Nat) (q : DbReq) (src dst d : Files) (hraw : q.autocast = false)
-    (hnd : q.nameList.Nodup) (h : writeDb now q src dst = (d, none)) (n : Name) (hn : n ∈ q.nameList) :
+    (hnd : q.inPlace = false ∨ q.nameList.Nodup) (h : writeDb now q src dst = (d, none)) (n : Name) (hn : n ∈ q.nameList) :
     ∃ fields recs, q.target.lookup n = some fields ∧
       sourceRecords q fields (if q.inPlace then dst else src) n = .ok recs ∧
       readRaw (d n) = .ok (recs.map (fun rec =>
@@ -462,13 +493,6 @@ theorem parse_format_schema_ident (ss : SSchema) (h : ∀ t ∈ ss, IdentTable t
     (hnd : (ss.map (·.1)).Nodup) : parseSchema (formatSchema ss) = .ok ss :=
   parse_format_schema ss (fun t ht => TableOk_of_ident t (h t ht)) hnd
 
-/-- lifted: "a database written by write_database / initialize_database can be opened with the
-same schema" — the `relations` file they leave behind (whatever happened to the relation files)
-is read back by `Database(path)` / `read_schema` as exactly the target schema. -/
-theorem written_database_opens (target : SSchema) (h : ∀ t ∈ target, IdentTable t)
-    (hnd : (target.map (·.1)).Nodup) : openSchema (writeSchemaFile target) = .ok target :=
-  parse_format_schema_ident target h hnd
-
 /-- F27 regression (fixed by 464c039), checked on the model: relations named by one character, in
 first and in later position, with flags, a padded and an unpadded comment. -/
 theorem one_char_relation_roundtrip :
@@ -546,24 +570,32 @@ theorem schemaOk_clauses_needed :
         (fun s => schemaOkB s == roundTrips s)) = true := by
   decide
 
-/-- "Writing a whole database … optionally under a different schema": the destination's `relations`
-file is exactly `writeSchema target` — in every case, also when the loop over the relations raised —
-so re-opening the written directory yields the target schema (for targets satisfying `schemaOkB`);
-the relation files are those of `writeDb` (theorems `writeDb_preserves`, `writeDb_no_stale`). -/
+/-- "Writing a whole database … optionally under a different schema": `tss` is the target schema
+WITH its flags and comments, tied to the request by `htss` (its data-level view — names and
+datatypes — is the schema `q.target` that governs the relation files).  The destination's `relations`
+file is exactly `writeSchema tss` — in every case, also when the loop over the relations raised — the
+relation files and the error are those of `writeDb` (theorems `writeDb_preserves`,
+`writeDb_no_stale`), and re-opening the written directory yields `tss`, whose data-level view is
+`q.target` (for targets satisfying `schemaOkB`). -/
 theorem written_database_reopens (now : Nat) (q : DbReq) (tss : SSchema) (src : Files) (dst d : DbDir)
-    (e : Option Err) (h : writeDbDir now q tss src dst = (d, e)) :
-    d.relations = some (writeSchema tss) ∧ d.files = (writeDb now q src dst.files).1
-    ∧ e = (writeDb now q src dst.files).2
-    ∧ (schemaOkB tss = true → reopenSchema d = .ok tss) := by
+    (e : Option Err) (htss : tss.toSchema = some q.target)
+    (h : writeDbDir now q tss src dst = (d, e)) :
+    d.relations = some (writeSchema tss) ∧ (d.files, e) = writeDb now q src dst.files
+    ∧ (schemaOkB tss = true →
+        ∃ s, reopenSchema d = .ok s ∧ s.toSchema = some q.target ∧ s = tss) := by
   unfold writeDbDir at h
   cases hw : writeDb now q src dst.files with
   | mk d1 e1 =>
     simp only [hw, Prod.mk.injEq] at h
     obtain ⟨hd, he⟩ := h
     subst hd; subst he
-    refine ⟨rfl, rfl, rfl, ?_⟩
+    refine ⟨rfl, rfl, ?_⟩
     intro hok
-    exact readSchema_writeSchema tss hok
+    exact ⟨tss, readSchema_writeSchema tss hok, htss, rfl⟩
+
+/-- the hypothesis `htss` is satisfiable: the data-level view of a schema with flags and comments -/
+example : SSchema.toSchema [("item".toList, [mkF "i-id" ":integer" [":key"] (some "id"), mkF "i-input" ":string" [] none])]
+    = some [("item".toList, [⟨"i-id".toList, .integer⟩, ⟨"i-input".toList, .string⟩])] := by decide
 
 /-! ## the reading interfaces -/
 
@@ -645,6 +677,44 @@ theorem select_auto_is_projection (fields : List Field) (cols : Option (List Nam
     funext l
     simp only [bind, Except.bind, decodeRaw_eq_splitLine]
     cases splitLine (l ++ ['\n']) <;> rfl
+
+open Verif.C08 (Val normEmpty) in
+/-- composed statement, history → every reading interface: after ANY history from any start state,
+if the closed form of the history (last accepted overwrite + later accepted appends) is the list of
+lines `L` that prints the records `R` under `fields`, then the raw interface returns the printed
+cells of `R` (`tsdb.open` + `split` likewise), the autocast interface returns their cast, and the
+three column-selecting variants return the projection of the raw records, the projection with the
+selected cells cast, and the projection of the autocast records.  (`stage_append` in Lemmas.lean shows
+how `L`/`R` arise: lines staged from `a` followed by lines staged from `b` are the lines staged from
+`a ++ b`.) -/
+theorem interfaces_after_history (now : Nat) (r : Rel) (qs : List WReq) (fields : List Field)
+    (cols : Option (List Name)) (idxs : List Nat) (R : List (List Val)) (L : List Line)
+    (hL : closedForm r.read (acceptedIn (abs r) qs) = some L)
+    (hst : stage fields R = .ok L)
+    (hi : selIndices fields cols = .ok idxs) :
+    let recs := R.map (fun vals => (cellsOf fields vals).map (fun s => normEmpty (some s)))
+    readRaw (run now r qs) = .ok recs
+    ∧ (match openLines (run now r qs) with
+        | .ok lines => lines.mapM splitLine
+        | .error e => .error e) = .ok recs
+    ∧ readCast fields (run now r qs) = recs.mapM (castRow fields)
+    ∧ selectRaw fields cols (run now r qs) = recs.mapM (projectRow idxs)
+    ∧ selectCast fields cols (run now r qs) = recs.mapM (fun rec_ => idxs.mapM (fun i =>
+        match fields[i]?, rec_[i]? with
+        | some f, some c => castCell f.dt c
+        | _, _ => .error .indexError))
+    ∧ ∀ rows, readCast fields (run now r qs) = .ok rows →
+        selectAuto fields cols (run now r qs) = rows.mapM (projectRow idxs) := by
+  intro recs
+  have hread : (run now r qs).read = some L := by rw [read_any_history, hL]
+  have hraw : readRaw (run now r qs) = .ok recs := readRaw_staged fields R L _ hst hread
+  refine ⟨hraw, ?_, ?_, ?_, ?_, ?_⟩
+  · rw [← getitem_reads_open]; exact hraw
+  · exact autocast_is_cast_of_raw fields _ recs hraw
+  · exact select_is_projection fields cols _ recs idxs hraw hi
+  · exact select_cast_is_projection_then_cast fields cols _ recs idxs hraw hi
+  · intro rows hrows
+    exact select_auto_is_projection fields cols _ rows idxs hrows hi
 
 /-! ## what is on disk: carriage returns, NUL and friends -/
 
